@@ -7,6 +7,7 @@ import (
 	"github.com/tidwall/geojson/geometry"
 
 	"verif/internal/exact"
+	"verif/internal/mon"
 )
 
 // Enc is an affine re-encoding of a small integer lattice into the exact
@@ -142,4 +143,53 @@ func jps(ps []exact.P) []jpt {
 		out[i] = jp(p)
 	}
 	return out
+}
+
+// PH maps half-lattice coordinates (i2, j2 in units of half a lattice step);
+// Mul must be even.
+func (e Enc) PH(i2, j2 int64) exact.P {
+	if e.Swap {
+		i2, j2 = j2, i2
+	}
+	x, y := i2*(e.Mul/2), j2*(e.Mul/2)
+	if e.NegX {
+		x = -x
+	}
+	if e.NegY {
+		y = -y
+	}
+	return exact.P{X: x + e.TX, Y: y + e.TY}
+}
+
+// closedSegs returns the segments the library's rule gives a closed series of
+// raw points: none below 3 points, consecutive pairs, plus an implicit closing
+// segment exactly when the last point differs from the first.
+func closedSegs(raw []exact.P) []exact.Seg {
+	n := len(raw)
+	if n < 3 {
+		return nil
+	}
+	var out []exact.Seg
+	for i := 0; i+1 < n; i++ {
+		out = append(out, exact.Seg{A: raw[i], B: raw[i+1]})
+	}
+	if raw[n-1] != raw[0] {
+		out = append(out, exact.Seg{A: raw[n-1], B: raw[0]})
+	}
+	return out
+}
+
+func openSegs(raw []exact.P) []exact.Seg {
+	var out []exact.Seg
+	for i := 0; i+1 < len(raw); i++ {
+		out = append(out, exact.Seg{A: raw[i], B: raw[i+1]})
+	}
+	return out
+}
+
+func hashPts(h mon.H, ps []exact.P) mon.H {
+	for _, p := range ps {
+		h = h.I(p.X).I(p.Y)
+	}
+	return h.I(int64(len(ps)))
 }
